@@ -28,7 +28,7 @@ RULE = (
     "command run on one tampered world, distinct by (scenario hash, victim, edit, command)."
 )
 ASSUMPTIONS = ["one tamper at a time (plus a drawn share of double tampers); chain file content edits are outside the statement"]
-BUDGET = {"quick": (40, 4), "thorough": (1600, 16)}
+BUDGET = {"quick": (100, 4), "thorough": (2400, 16)}
 REQUIRED = ["older_generation", "nested_victim", "bitflip", "removed", "chain_removed", "flatten", "info_sf_noroot"]
 
 P1 = {
@@ -148,6 +148,7 @@ def run_case(scn, ctx):
         top = scn["root"]
         for step in scn["steps"]:
             hist.apply_step(w, scn, step)
+        os.makedirs(w.abs("_flat"), exist_ok=True)  # flatten's destination parent exists before any snapshot is taken
         roots = w.history_roots()
         manifests = []
         for h in roots:
